@@ -5,7 +5,7 @@ import numpy as np
 
 RULE = ("K: fdtdx.apply_params on scenes built with fdtdx.place_objects: volume 3-7 cells per axis; permittivity tier "
         "isotropic / diagonal / full tensor (decided by the materials present); optional background slab (plain or "
-        "dispersive) partly under the devices; 1-2 devices (second one sometimes overlapping the first) of kind "
+        "dispersive) partly under the devices; 1-2 devices (two-device scenes always of MIXED kinds — etched+discrete, continuous+etched, continuous+discrete … — over a full background slab when one is etched, with histories of 2-3 sets applied to the returned arrays; the second device sometimes overlaps the first) of kind "
         "continuous (2 materials, no transform or StandardToCustomRange), etched (1 material, use_etching) or discrete "
         "(2-4 materials, ClosestIndex; BINARY and DISCRETE), design voxels of 1-2 cells per axis, Lorentz/Drude materials "
         "(isotropic and per-axis poles) in a fraction of the scenes so that the dispersive coefficient arrays exist; "
@@ -374,8 +374,14 @@ def gen_case(rng, i, big=False):
         case["bg"] = {"mat": gen_mat(rng, tier if rng.chance(0.7) else "iso", dispersive, 1.5, 9.0), "lo": lo, "thick": thick}
     ndev = 2 if (i % 3 == 2) else 1
     kinds_cycle = ["cont", "disc", "etch", "disc", "cont-range", "etch", "disc", "cont"]
+    mixed_pairs = [("etch", "disc"), ("cont", "etch"), ("disc", "etch"), ("etch", "cont-range"), ("cont", "disc"), ("etch", "cont")]
+    if ndev == 2:
+        pair = mixed_pairs[(i // 3) % len(mixed_pairs)]
+        if "etch" in pair:
+            # a slab over the whole volume that differs from every etch material, so that etching is visible
+            case["bg"] = {"mat": gen_mat(rng, tier, dispersive, 6.0, 9.0), "lo": 0, "thick": N[2]}
     for di in range(ndev):
-        kind = kinds_cycle[(i + 3 * di) % len(kinds_cycle)]
+        kind = pair[di] if ndev == 2 else kinds_cycle[i % len(kinds_cycle)]
         if big and i % 2 == 1:
             vox = [rng.choice([1, 1, 2]) for _ in range(3)]
             m = [rng.randint(1, min(3, max(1, N[a] // vox[a]))) for a in range(3)]
@@ -395,7 +401,7 @@ def gen_case(rng, i, big=False):
                 cand = min(d0["lo"][a] + rng.randint(0, max(0, d0["shape"][a] - 1)), N[a] - shape[a])
                 lo[a] = max(0, cand)
         if kind == "etch":
-            mats = [gen_mat(rng, tier, dispersive)]
+            mats = [gen_mat(rng, tier, dispersive, 1.0, 4.0)]
         elif kind == "disc":
             mats = [gen_mat(rng, tier, dispersive) for _ in range(rng.randint(2, 4))]
         else:
@@ -413,6 +419,8 @@ def gen_case(rng, i, big=False):
                 mm_["eps"] = round(e + bump, 3)
         case["devs"].append({"name": f"dev{di}", "lo": lo, "shape": shape, "vox": vox, "kind": kind, "mats": mats})
     nh = 1 + (i % 3)
+    if ndev == 2:
+        nh = 2 + ((i // 3) % 2)          # mixed scenes: always a history applied to the returned arrays
     for _ in range(nh):
         h = {}
         for d in case["devs"]:
@@ -488,11 +496,28 @@ def run(ctx):
          "devs": [{"name": "dev0", "lo": [1, 0, 0], "shape": [2, 2, 4], "vox": [1, 2, 2], "kind": "etch", "mats": [{"eps": 1.0}]}],
          "hist": [{"dev0": [0.3, 0.9, 1.0, 0.5]}, {"dev0": [1.0, 0.0, 0.25, 0.75]}, {"dev0": [0.5, 0.0, 1.0, 0.125]}]},
         # etched device on top of a continuous one (painter's order), backup present
-        {"N": [4, 4, 3], "bg": None, "jit": False,
+        {"N": [4, 4, 3], "bg": {"mat": {"eps": 4.0}, "lo": 0, "thick": 3}, "jit": False,
          "devs": [{"name": "dev0", "lo": [0, 0, 0], "shape": [3, 2, 2], "vox": [1, 1, 1], "kind": "cont", "mats": [{"eps": 2.0}, {"eps": 6.0}]},
                   {"name": "dev1", "lo": [1, 1, 1], "shape": [2, 2, 2], "vox": [2, 1, 1], "kind": "etch", "mats": [{"eps": 1.0}]}],
          "hist": [{"dev0": [0.1 * t for t in range(12)], "dev1": [0.2, 0.4, 0.6, 0.8]},
                   {"dev0": [1.0 - 0.05 * t for t in range(12)], "dev1": [1.0, 0.0, 0.5, 0.25]}]},
+    ]
+    fixed += [
+        # mixed kinds, disjoint: etched + discrete over a slab, history of 3 applied to the returned arrays
+        {"N": [6, 5, 4], "bg": {"mat": {"eps": 5.0}, "lo": 0, "thick": 4}, "jit": False,
+         "devs": [{"name": "dev0", "lo": [0, 0, 0], "shape": [2, 2, 2], "vox": [1, 1, 2], "kind": "etch", "mats": [{"eps": 1.0}]},
+                  {"name": "dev1", "lo": [3, 2, 1], "shape": [2, 2, 2], "vox": [2, 1, 1], "kind": "disc",
+                   "mats": [{"eps": 1.0}, {"eps": 3.0}, {"eps": 7.0}]}],
+         "hist": [{"dev0": [0.9, 0.4, 0.7, 1.0], "dev1": [0.2, 1.6, 2.4, 0.5]},
+                  {"dev0": [0.3, 0.8, 0.1, 0.6], "dev1": [2.0, 0.0, 1.0, 1.5]},
+                  {"dev0": [0.5, 0.25, 1.0, 0.0], "dev1": [1.2, 2.7, 0.4, 0.6]}]},
+        # discrete first, etched second, diagonal tier, history of 2
+        {"N": [5, 4, 3], "bg": {"mat": {"eps": [3.0, 4.0, 5.0]}, "lo": 0, "thick": 3}, "jit": False,
+         "devs": [{"name": "dev0", "lo": [0, 0, 0], "shape": [2, 2, 1], "vox": [1, 1, 1], "kind": "disc",
+                   "mats": [{"eps": [1.0, 1.5, 2.0]}, {"eps": [6.0, 5.0, 4.0]}]},
+                  {"name": "dev1", "lo": [2, 1, 1], "shape": [2, 2, 2], "vox": [1, 2, 1], "kind": "etch", "mats": [{"eps": [1.0, 1.2, 1.4]}]}],
+         "hist": [{"dev0": [0.2, 0.8, 0.5, 1.3], "dev1": [0.8, 0.6, 1.0, 0.3]},
+                  {"dev0": [0.9, 0.1, 0.7, 0.4], "dev1": [0.2, 0.9, 0.5, 0.7]}]},
     ]
     lor = {"kind": "lorentz", "w0": 3e15, "g": 1e14, "de": 1.5}
     fixed += [
